@@ -39,6 +39,17 @@ def counted_set(step, data, shape, tensor):
             data.file.flush()
         os._exit(9)
 ptm._set_data_and_shape = counted_set
+if spec.get("kill_after_init"):
+    # the writer dies right after the file object has been constructed (file created, nothing written by the caller yet)
+    orig_init = ptm.FileProcessTensor.__init__
+    def init_then_die(self, mode, *a, **k):
+        orig_init(self, mode, *a, **k)
+        if mode != "read":
+            f_ = getattr(self, "_f", None)
+            if flush and f_ is not None:
+                f_.flush()
+            os._exit(9)
+    ptm.FileProcessTensor.__init__ = init_then_die
 orig_close = h5py.File.close
 def counted_close(self):
     # dying inside close(): before the library's close has returned
@@ -110,7 +121,7 @@ def handfill_codes(j):
     coded for Glue.handfill_flat: (0,k) set_mpo k, (1,k) set_cap k, (2,n) name := n, (3,n) description := n, (9,0) close()"""
     bonds, ra, what, kill = j["bonds"], j["rename_after"], j["rename"], j["kill_at"]
     codes, st = [], {"count": 1, "renamed": False}
-    if kill == 1:
+    if kill == 1 or j.get("kill_after_init"):
         return codes
 
     def maybe():
@@ -546,6 +557,12 @@ def run(chk):
                         jobs.append({"writer": "handfill", "bonds": hb, "rename_after": ra, "rename": what, "kill_at": k, "flush": False})
                 if nops_h:
                     jobs.append({"writer": "handfill", "bonds": hb, "rename_after": ra, "rename": what, "kill_at": 0, "flush": False})     # completes
+        # every writer dying right after the file object has been constructed (between the creation of the file and the first
+        # tensor written into it; for PT-TEMPO this window spans the whole propagation)
+        for flush in (True, False):
+            jobs.append({"writer": "export", "d": 2, "bonds": [1, 2, 1], "kill_at": -1, "flush": flush, "kill_after_init": True})
+            jobs.append({"writer": "handfill", "bonds": hb, "rename_after": 99, "rename": "both", "kill_at": -1, "flush": flush, "kill_after_init": True})
+            jobs.append({"writer": "pttempo", "end": end, "kill_at": -1, "flush": flush, "kill_after_init": True})
         for i, j in enumerate(jobs):
             j["file"] = os.path.join(tmp, f"crash_{i}.hdf5")
         with ThreadPoolExecutor(12) as ex:
@@ -577,7 +594,8 @@ def run(chk):
                     pass    # died inside h5py's own close after the flag was reset: complete content, nothing missing
                 elif outcome == "clean":
                     chk.fail("crash-undetected" if j.get("death") != "raise" else "exception-death-undetected",
-                             (f"writer killed after operation {j['kill_at']} ({'flushed' if j['flush'] else 'unflushed'}"
+                             ((f"writer killed after operation {j['kill_at']}" if not j.get("kill_after_init") else "writer killed right after the file object was constructed")
+                              + f" ({'flushed' if j['flush'] else 'unflushed'}"
                               + (f"; {j['rename']} set after operation {j['rename_after']}" if j["writer"] == "handfill" else "") + "); " if j.get("death") != "raise" else
                               f"writer dies through an exception raised in write operation {j['kill_at']}; ")
                              + f"the file opens without error or warning (content {content})", rec)
